@@ -140,7 +140,9 @@ type pathRecorder struct {
 	events []string
 }
 
-func newPathRecorder(emb Embedding) *pathRecorder { return &pathRecorder{emb: emb, have: map[string]int{}} }
+func newPathRecorder(emb Embedding) *pathRecorder {
+	return &pathRecorder{emb: emb, have: map[string]int{}}
+}
 func (c *pathRecorder) key(pfx *bnet.Prefix, p *route.Path) string {
 	return entryKey(c.emb.Bits(pfx), projectRibPath(p, c.emb.V6))
 }
@@ -152,8 +154,10 @@ func (c *pathRecorder) AddPath(pfx *bnet.Prefix, p *route.Path) error {
 	c.events = append(c.events, "add "+k)
 	return nil
 }
-func (c *pathRecorder) AddPathInitialDump(pfx *bnet.Prefix, p *route.Path) error { return c.AddPath(pfx, p) }
-func (c *pathRecorder) EndOfRIB()                                               {}
+func (c *pathRecorder) AddPathInitialDump(pfx *bnet.Prefix, p *route.Path) error {
+	return c.AddPath(pfx, p)
+}
+func (c *pathRecorder) EndOfRIB() {}
 func (c *pathRecorder) RemovePath(pfx *bnet.Prefix, p *route.Path) bool {
 	c.mu.Lock()
 	defer c.mu.Unlock()
@@ -174,7 +178,7 @@ func (c *pathRecorder) ReplacePath(pfx *bnet.Prefix, o, n *route.Path) {
 	c.AddPath(pfx, n)
 }
 func (c *pathRecorder) RefreshRoute(*bnet.Prefix, []*route.Path) {}
-func (c *pathRecorder) Dispose()                                {}
+func (c *pathRecorder) Dispose()                                 {}
 func (c *pathRecorder) keys() []string {
 	c.mu.Lock()
 	defer c.mu.Unlock()
